@@ -259,3 +259,137 @@ def own_nodes(fn: ast.FunctionDef):
         if isinstance(n, (ast.FunctionDef, ast.AsyncFunctionDef, ast.Lambda, ast.ClassDef)):
             continue
         stack.extend(ast.iter_child_nodes(n))
+
+
+# ------------------------------------------------------------------------------------------------
+# structural helpers
+
+def parent_map(fn: ast.AST) -> Dict[int, ast.AST]:
+    pm = {}
+    for n in ast.walk(fn):
+        for c in ast.iter_child_nodes(n):
+            pm[id(c)] = n
+    return pm
+
+
+def enclosing(fn: ast.AST, node: ast.AST, kinds) -> List[ast.AST]:
+    pm = parent_map(fn)
+    out = []
+    cur = pm.get(id(node))
+    while cur is not None:
+        if isinstance(cur, kinds):
+            out.append(cur)
+        cur = pm.get(id(cur))
+    return out
+
+
+def inside_with(fn: ast.AST, node: ast.AST, ctx_src: str) -> bool:
+    for w in enclosing(fn, node, (ast.With,)):
+        for it in w.items:
+            if src(it.context_expr) == ctx_src:
+                return True
+    return False
+
+
+def attr_stores(fn: ast.AST, attr: str) -> List[ast.stmt]:
+    """Statements that assign self.<attr> (Assign/AugAssign/AnnAssign)."""
+    out = []
+    for n in own_nodes(fn):
+        if isinstance(n, ast.Assign):
+            for t in n.targets:
+                for e in (t.elts if isinstance(t, (ast.Tuple, ast.List)) else [t]):
+                    if dotted(e) == f"self.{attr}":
+                        out.append(n)
+        elif isinstance(n, (ast.AugAssign, ast.AnnAssign)) and dotted(n.target) == f"self.{attr}":
+            out.append(n)
+    return out
+
+
+def must_pass(cfg: CFG, is_event, from_node=None, to_nodes=None, skip_exc=True) -> Optional[List]:
+    """None if every path from `from_node` (default entry) to a node of `to_nodes` (default normal exit)
+    passes through a node for which is_event() holds; otherwise a witness path (list of nodes)."""
+    start = from_node or cfg.entry
+    targets = set(to_nodes) if to_nodes is not None else {cfg.exit}
+    prev = {start: None}
+    stack = [start]
+    while stack:
+        n = stack.pop()
+        if n in targets and n is not start:
+            path = []
+            cur = n
+            while cur is not None:
+                path.append(cur)
+                cur = prev[cur]
+            return list(reversed(path))
+        for s, lab in n.succs:
+            if skip_exc and lab == "exc":
+                continue
+            if s in prev:
+                continue
+            if is_event(s):
+                continue
+            prev[s] = n
+            stack.append(s)
+    return None
+
+
+def node_calls(node, suffix: str) -> bool:
+    """CFG node contains a call whose dotted name ends with suffix."""
+    a = node.ast
+    if a is None or node.kind == "handler":
+        return False
+    probe = a
+    if node.kind == "for":
+        probe = a.iter
+    elif node.kind == "with":
+        probe = ast.Tuple(elts=[i.context_expr for i in a.items], ctx=ast.Load())
+    return bool(find_calls(probe, suffix))
+
+
+def path_text(path) -> str:
+    return " -> ".join(f"{n.kind}@{n.lineno}" for n in path if n.kind not in ("entry",))
+
+
+class ReachingDefs:
+    """Reaching definitions for local names and self.<attr> within one function."""
+
+    def __init__(self, cfg: CFG):
+        from ..cfg import forward
+        from ..facts import assigned_targets
+        self.cfg = cfg
+        self.defsites: Dict[int, ast.AST] = {}
+
+        def transfer(n, st):
+            a = n.ast
+            if a is None or n.kind == "test":
+                tg = set()
+                if a is not None:
+                    tg = {t for t in assigned_targets(a)} if any(isinstance(x, ast.NamedExpr) for x in ast.walk(a)) else set()
+            else:
+                tg = assigned_targets(a) if isinstance(a, (ast.stmt, ast.ExceptHandler)) else set()
+            if not tg:
+                return st
+            d = dict(st)
+            for t in tg:
+                is_aug = isinstance(a, ast.AugAssign)
+                self.defsites[n.id] = a
+                d[t] = frozenset({n.id})
+                _ = is_aug
+            return frozenset(d.items())
+
+        def join(a, b):
+            da, db = dict(a), dict(b)
+            out = {}
+            for k in set(da) | set(db):
+                out[k] = da.get(k, frozenset({-1})) | db.get(k, frozenset({-1}))
+            return frozenset(out.items())
+
+        self.IN, self.OUT = forward(cfg, frozenset(), transfer, join)
+
+    def defs_at(self, node, name: str) -> List[Optional[ast.AST]]:
+        """Definition statements of `name` reaching entry of CFG node (None = parameter/initial value)."""
+        st = self.IN.get(node)
+        if st is None:
+            return []
+        ids = dict(st).get(name, frozenset({-1}))
+        return [self.defsites.get(i) if i >= 0 else None for i in sorted(ids)]
